@@ -616,21 +616,21 @@ fn snippet_of(ms: &ModuleSet) -> String {
 // the builder: sources of all three kinds and the output mode may be given in any order
 
 #[derive(Clone, Debug)]
-enum Op {
+pub(crate) enum Op {
     Lit(String),
     Path(PathBuf),
     Iter(Vec<PathBuf>),
     Output,
 }
 
-enum St<B: Backend_> {
+pub(crate) enum St<B: Backend_> {
     New(Compiler<B, rasn_compiler::CompilerMissingParams>),
     Src(Compiler<B, rasn_compiler::CompilerSourcesSet>),
     Out(Compiler<B, rasn_compiler::CompilerOutputSet>),
     Ready(Compiler<B, rasn_compiler::CompilerReady>),
 }
 
-fn apply_op<B: Backend_>(st: St<B>, op: &Op, out: Option<&Path>) -> St<B> {
+pub(crate) fn apply_op<B: Backend_>(st: St<B>, op: &Op, out: Option<&Path>) -> St<B> {
     let mode = || match out {
         Some(p) => OutputMode::SingleFile(p.to_path_buf()),
         None => OutputMode::NoOutput,
